@@ -219,12 +219,25 @@ static bool exec_pool(int ex, vt::Rng& r) {
         }
     }
     // wait for the submitters (the last one may be destroying the pool)
+    // ... and, in some executions, interrupt photon submitters that are blocked inside call(): thread_interrupt() is what any
+    // other component may do to a thread; call() must still not return before its task has finished.  Only where the main thread
+    // destroys the pool (an interrupt is never aimed at a thread that may be inside ~WorkPool()); the submitters stay joinable
+    // until the thread_join below, so their handles stay valid.
+    bool intr = x.dtor_by == 1 && r.coin(60);
+    int nintr = 0;
     uint64_t waited = 0;
     for (;;) {
         bool all = true;
         for (auto& s : subs) if (!s->done.load()) all = false;
         if (all) break;
         if (waited > 15 * 1000 * 1000) return hang("", subs);
+        if (intr && nintr < 40)
+            for (auto& s : subs)
+                if (!s->os && !s->done.load() && !strcmp(s->where, "call") && r.coin(50)) {
+                    vt::Ev("Intr").i("s", s->sid);
+                    thread_interrupt(s->w.th, EINTR);
+                    nintr++;
+                }
         thread_usleep(300); waited += 300;
     }
     if (x.dtor_by == 1) {
